@@ -90,6 +90,10 @@ def nt_c15(e):
     return e.get("fired") == 1
 
 
+def nt_c11(e):
+    return e.get("conc", 0) >= 2 and e.get("overlap", 0) >= 2
+
+
 def nt_c01(e):
     return len(e.get("reobs", [])) >= 2
 
@@ -109,6 +113,16 @@ TV_NOTE = ("Trusted: TLC and the CommunityModules overrides; the harness encoder
 NOT_APPLICABLE = {}
 
 PROPS = {
+    "C11": dict(level="exploration", nontrivial=nt_c11, race=True,
+                text="Batches of 2..8 operations (Filter incl. like/ilike, Sort, Distinct, GroupBy, Apply, Eval, Select/Slice/Copy, typed views, ToCSV/ToJSON/String, Equals) are started together on "
+                     "separate goroutines released from a barrier, on the same frame and on frames sharing storage with it (parent/child, siblings through Slice, sorted copies, a shared enum table), "
+                     "each batch repeated with seeded yields, with the harness built with -race. Every concurrent result is emitted as an ordinary event and judged by TLC against the operation's "
+                     "semantics exactly as a sequential result is, every earlier family member is re-observed after each batch (Persist), and a report of Go's race detector during a batch is an event TLC "
+                     "never accepts. Absence of data races is observed by the race detector on the interleavings the scheduler produced (a happens-before analysis of the executions driven, not all "
+                     "interleavings): the level claimed is exploration.",
+                note=TV_NOTE + " The data-race half rests on Go's race detector; overlap (>=2 goroutines inside an operation at once) is measured per batch and reported.",
+                technique="TLC trace validation of results computed concurrently + Go race detector on model-chosen operation multisets and sharing shapes",
+                rule="random operation multisets x sharing shapes x repetitions; non-trivial = an event of a batch in which >=2 goroutines were inside an operation simultaneously; distinct by (operation, arguments, result digest)"),
     "C19": dict(level="model_checking", nontrivial=nt_c19,
                 text="Frames with >=1 row however derived are written by the real ToSQL through database/sql into a recording, storing in-memory driver (harness/sqldrv.go) under every dialect "
                      "configuration (escape character incl. multi-byte, ? or $n placeholders, table names with spaces/quotes) and read back by the real ReadSQL; result sets with NULLs leading, in "
